@@ -281,16 +281,14 @@ local _orig_xpcall = xpcall
 local new_package = { loaders = { nil, new_loader },
                       loaded = {} }
 
+-- Note: host libraries that modules must not be able to obtain with
+-- require() (io, os, package, python, _G) must not be listed here:
+-- new_require() returns whatever is left in package.loaded.
 local retained_modules = {
     coroutine = true,
     math = true,
-    io = true,
-    python = true,
     utf8 = true,
-    os = true,
-    package = true,
     table = true,
-    _G = true,
     _sandbox_phase1 = true,
     -- We also keep some very frequently used modules that we know can be
     -- reused for other calls and pages
